@@ -113,6 +113,21 @@ Fixpoint qdedup (l : list quad) : list quad :=
 Definition query_merged_graphs (st : state) (gs : list N) (s p o : option N) : list quad :=
   qdedup (map (fun q => mkq (qs q) (qp q) (qo q) 0) (flat_map (fun g => query_graph st g s p o) gs)).
 
+(* QueryBuilder (kolibrie/src/query_builder.rs: apply_filters, get_triples, count) with the
+   string filters on subject / predicate / object.  Terms are dictionary strings; under the
+   dictionary abstraction (every id of the universe decodes to its own distinct string, property
+   C15) the test `decode(id) == s` is `id = encode(s)`.  The builder scans
+   query_default_triples(None, None, None) (= query_graph(Default) with the graph dropped), tests
+   the subject, then the predicate, then the object filter, and collects the survivors in a
+   BTreeSet<Triple>; count() is the size of that set. *)
+Definition qb_filter (f : option N) (v : N) : bool :=
+  match f with None => true | Some x => N.eqb v x end.
+Definition qb_matches (s p o : option N) (q : quad) : bool :=
+  if qb_filter s (qs q) then (if qb_filter p (qp q) then qb_filter o (qo q) else false) else false.
+Definition query_builder (st : state) (s p o : option N) : list quad :=
+  qdedup (filter (qb_matches s p o)
+            (map (fun q => mkq (qs q) (qp q) (qo q) 0) (query_graph st 0 None None None))).
+
 Definition query_quads (st : state) (s p o : option N) (g : option N) : list quad :=
   match g with
   | Some gg => query_graph st gg s p o
@@ -162,7 +177,8 @@ Inductive op :=
 | QMerged (gs : list N) (s p o : option N)
 | QQuads (s p o : option N) (g : option N)
 | GExists (g : N) | NamedGraphs | Graphs | AllQuads
-| GraphsFor (s p o : N) | LenG (g : N).
+| GraphsFor (s p o : N) | LenG (g : N)
+| QB (s p o : option N) | QBCount (s p o : option N).
 
 Inductive out :=
 | OUnit | OBool (b : bool) | OQuads (l : list quad) | OGraphs (l : list N) | ONum (n : N).
@@ -187,6 +203,8 @@ Definition step (st : state) (o : op) : state * out :=
   | AllQuads => (st, OQuads (all_quads st))
   | GraphsFor s p o => (st, OGraphs (graphs_for_triple st s p o))
   | LenG g => (st, ONum (N.of_nat (length (query_graph st g None None None))))
+  | QB s p o => (st, OQuads (query_builder st s p o))
+  | QBCount s p o => (st, ONum (N.of_nat (length (query_builder st s p o))))
   end.
 
 Fixpoint run (st : state) (ops : list op) : state * list out :=
